@@ -134,47 +134,77 @@ Inductive event := Ev (name : nat) (ins : list val).
 Definition EV_BORROW := 1.   (* collections.borrow_arr.borrow : (arr, idx) -> (arr, elem) *)
 Definition EV_RETURN := 2.   (* collections.borrow_arr.return : (arr, idx, elem) -> arr *)
 
-Record state := mkState { st_locals : locals; st_trace : list event }.
+(* the index expression of a subscript's item variable *)
+Inductive iexpr :=
+| IParam (k : nat)                  (* a local int variable: the function's k-th input *)
+| IConst (c : nat)                  (* a literal *)
+| ICall (name : nat) (arg : option nat).   (* an opaque (possibly effectful) call f() / f(<k-th input>) *)
+Definition ienv := nat -> iexpr.
+
+(* st_items: the item variables already evaluated in this DFG (`subscript.item in self.dfg`) *)
+Record state := mkState { st_locals : locals; st_trace : list event; st_items : list (nat * val) }.
 
 Definition emit (e : event) (s : state) : nat * state :=
-  (length (st_trace s), mkState (st_locals s) (st_trace s ++ [e])).
+  (length (st_trace s), mkState (st_locals s) (st_trace s ++ [e]) (st_items s)).
+
+Definition set_locals (l : locals) (s : state) : state := mkState l (st_trace s) (st_items s).
+
+Fixpoint lookup_item (x : nat) (l : list (nat * val)) : option val :=
+  match l with [] => None | (y, v) :: r => if Nat.eqb x y then Some v else lookup_item x r end.
+
+(* if subscript.item not in self.dfg: self.dfg[subscript.item] = self.visit(subscript.item_expr) *)
+Definition eval_item (ie : ienv) (item : nat) (s : state) : val * state :=
+  match lookup_item item (st_items s) with
+  | Some v => (v, s)
+  | None =>
+      let '(v, s1) :=
+        match ie item with
+        | IParam k => (VAtom (AIn k []), s)
+        | IConst c => (VAtom (AConst c), s)
+        | ICall name a =>
+            let ins := match a with Some k => [VAtom (AIn k [])] | None => [] end in
+            let '(ev, s1) := emit (Ev name ins) s in (VAtom (AOut ev 0 []), s1)
+        end in
+      (v, mkState (st_locals s1) (st_trace s1) ((item, v) :: st_items s1))
+  end.
 
 (* visit_PlaceNode and the write-back of one borrowed place, mutually recursive through the
    __getitem__ / __setitem__ calls on the parent of a subscript.  Fuel = nesting depth. *)
-Fixpoint visit_place (fuel : nat) (te : tenv) (p : place) (s : state) : option (val * state) :=
+Fixpoint visit_place (fuel : nat) (te : tenv) (ie : ienv) (p : place) (s : state) : option (val * state) :=
   match fuel with
   | 0 => None
   | S fuel' =>
       let fin (s : state) :=
         match dget (type_of te p) p (st_locals s) with
-        | Some (v, l) => Some (v, mkState l (st_trace s))
+        | Some (v, l) => Some (v, set_locals l s)
         | None => None
         end in
       match contains_subscript p with
       | None => fin s
       | Some (parent, item) =>
-          (* self.dfg[subscript] = self.visit(subscript.getitem_call)
+          (* the index is evaluated once, before the parent; then
+             self.dfg[subscript] = self.visit(subscript.getitem_call)
              getitem(parent [borrowed], item) -> elem *)
-          match visit_place fuel' te parent s with
+          let '(idx, s0) := eval_item ie item s in
+          match visit_place fuel' te ie parent s0 with
           | None => None
           | Some (arrv, s1) =>
-              let '(ev, s2) := emit (Ev EV_BORROW [arrv; VAtom (AIdx item)]) s1 in
+              let '(ev, s2) := emit (Ev EV_BORROW [arrv; idx]) s1 in
               let arr' := expand (type_of te parent) (AOut ev 0) [] in
               let elt := expand (type_of te (PSub parent item)) (AOut ev 1) [] in
-              match assign_place fuel' te parent arr' s2 with
+              match assign_place fuel' te ie parent arr' s2 with
               | None => None
               | Some s3 =>
-                  fin (mkState (dset (type_of te (PSub parent item)) (PSub parent item) elt (st_locals s3))
-                               (st_trace s3))
+                  fin (set_locals (dset (type_of te (PSub parent item)) (PSub parent item) elt (st_locals s3)) s3)
               end
           end
       end
   end
-with assign_place (fuel : nat) (te : tenv) (p : place) (v : val) (s : state) : option state :=
+with assign_place (fuel : nat) (te : tenv) (ie : ienv) (p : place) (v : val) (s : state) : option state :=
   match fuel with
   | 0 => None
   | S fuel' =>
-      let s1 := mkState (dset (type_of te p) p v (st_locals s)) (st_trace s) in
+      let s1 := set_locals (dset (type_of te p) p v (st_locals s)) s in
       match contains_subscript p with
       | None => Some s1
       | Some (parent, item) =>
@@ -183,18 +213,28 @@ with assign_place (fuel : nat) (te : tenv) (p : place) (v : val) (s : state) : o
           match dget (type_of te sub) sub (st_locals s1) with
           | None => None
           | Some (value, l2) =>
-              match visit_place fuel' te parent (mkState l2 (st_trace s1)) with
+              (* setitem(parent [borrowed], PlaceNode(item), PlaceNode(value_var)): the item
+                 variable is read from the DFG, its expression is not evaluated again *)
+              match visit_place fuel' te ie parent (set_locals l2 s1) with
               | None => None
               | Some (arrv, s3) =>
-                  let '(ev, s4) := emit (Ev EV_RETURN [arrv; VAtom (AIdx item); value]) s3 in
-                  assign_place fuel' te parent (expand (type_of te parent) (AOut ev 0) []) s4
+                  let '(idx, s3') := eval_item ie item s3 in
+                  let '(ev, s4) := emit (Ev EV_RETURN [arrv; idx; value]) s3' in
+                  assign_place fuel' te ie parent (expand (type_of te parent) (AOut ev 0) []) s4
               end
           end
       end
   end.
 
 (* one call statement: callee name, its inputs, the argument expressions, #regular returns *)
-Inductive carg := CPlace (p : place) | CExpr (c : nat).
+(* argument expressions: a place, a literal, or a temporary: the result of an opaque node
+   (call result `make()`, array literal = new_array node with n literal inputs), or a
+   struct constructor applied to such temporaries *)
+Inductive carg :=
+| CPlace (p : place)
+| CExpr (c : nat)
+| CTemp (name nconst : nat)
+| CStruct (parts : list (nat * nat)).
 (* c_target: `target = f(...)` assigns the first regular return to a place afterwards
    (StmtCompiler: self.dfg[place] = port) *)
 Record call := mkCall { c_name : nat; c_inputs : list (FuncInput ty); c_args : list carg; c_nret : nat;
@@ -202,26 +242,42 @@ Record call := mkCall { c_name : nat; c_inputs : list (FuncInput ty); c_args : l
 
 Definition FUEL := 12.
 
-Fixpoint visit_args (te : tenv) (zs : list (carg * FuncInput ty)) (s : state) : option (list val * state) :=
+Definition eval_temp (t : ty) (name nconst : nat) (s : state) : val * state :=
+  let '(ev, s1) := emit (Ev name (repeat (VAtom (AConst 0)) nconst)) s in
+  (expand t (AOut ev 0) [], s1).
+
+Fixpoint eval_parts (ts : list ty) (parts : list (nat * nat)) (s : state) : list val * state :=
+  match ts, parts with
+  | t :: ts', (name, nconst) :: parts' =>
+      let '(v, s1) := eval_temp t name nconst s in
+      let '(vs, s2) := eval_parts ts' parts' s1 in (v :: vs, s2)
+  | _, _ => ([], s)
+  end.
+
+Fixpoint visit_args (te : tenv) (ie : ienv) (zs : list (carg * FuncInput ty)) (s : state) : option (list val * state) :=
   match zs with
   | [] => Some ([], s)
   | (a, inp) :: r =>
-      if fl_comptime (fi_flags inp) then visit_args te r s
+      if fl_comptime (fi_flags inp) then visit_args te ie r s
       else
         match (match a with
-               | CPlace p => visit_place FUEL te p s
+               | CPlace p => visit_place FUEL te ie p s
                | CExpr c => Some (VAtom (AConst c), s)
+               | CTemp name nconst => Some (eval_temp (fi_ty inp) name nconst s)
+               | CStruct parts =>
+                   let '(vs, s1) := eval_parts (match fi_ty inp with TProd ts => ts | _ => [] end) parts s in
+                   Some (VProd vs, s1)
                end) with
         | None => None
         | Some (v, s1) =>
-            match visit_args te r s1 with
+            match visit_args te ie r s1 with
             | None => None
             | Some (vs, s2) => Some (v :: vs, s2)
             end
         end
   end.
 
-Definition to_arg (a : carg) : arg place := match a with CPlace p => APlace p | CExpr _ => AExpr end.
+Definition to_arg (a : carg) : arg place := match a with CPlace p => APlace p | _ => AExpr end.
 
 (* the extra output ports: one per borrowed input, in input order, eta-expanded *)
 Fixpoint inout_ports (ev : nat) (port : nat) (inputs : list (FuncInput ty)) : list val :=
@@ -233,32 +289,31 @@ Fixpoint inout_ports (ev : nat) (port : nat) (inputs : list (FuncInput ty)) : li
       else inout_ports ev port r
   end.
 
-Definition exec_call (te : tenv) (c : call) (s : state) : option state :=
+Definition exec_call (te : tenv) (ie : ienv) (c : call) (s : state) : option state :=
   match zip_strict (c_args c) (c_inputs c) with
   | None => None
   | Some zs =>
-      match visit_args te zs s with
+      match visit_args te ie zs s with
       | None => None
       | Some (ws, s1) =>
           let '(ev, s2) := emit (Ev (c_name c) ws) s1 in
           match update_inout_ports ty place val (option state)
-                  (fun p w os => match os with Some s => assign_place FUEL te p w s | None => None end)
+                  (fun p w os => match os with Some s => assign_place FUEL te ie p w s | None => None end)
                   (c_inputs c) (map to_arg (c_args c)) (inout_ports ev (c_nret c) (c_inputs c)) (Some s2) with
           | Some (Some s') =>
               match c_target c with
               | None => Some s'
-              | Some tp => Some (mkState (dset (type_of te tp) tp (expand (type_of te tp) (AOut ev 0) []) (st_locals s'))
-                                         (st_trace s'))
+              | Some tp => Some (set_locals (dset (type_of te tp) tp (expand (type_of te tp) (AOut ev 0) []) (st_locals s')) s')
               end
           | _ => None
           end
       end
   end.
 
-Fixpoint exec_calls (te : tenv) (cs : list call) (s : state) : option state :=
+Fixpoint exec_calls (te : tenv) (ie : ienv) (cs : list call) (s : state) : option state :=
   match cs with
   | [] => Some s
-  | c :: r => match exec_call te c s with Some s' => exec_calls te r s' | None => None end
+  | c :: r => match exec_call te ie c s with Some s' => exec_calls te ie r s' | None => None end
   end.
 
 (* entry block: dfg[v] = input wire, for every parameter, in order *)
@@ -280,9 +335,9 @@ Fixpoint read_outputs (te : tenv) (outs : list nat) (l : locals) : option (list 
   end.
 
 (* a whole single-block function: parameters, calls, variables output at the exit *)
-Definition run_function (te : tenv) (params : list nat) (cs : list call) (outs : list nat)
+Definition run_function (te : tenv) (ie : ienv) (params : list nat) (cs : list call) (outs : list nat)
   : option (list val * list event) :=
-  match exec_calls te cs (mkState (bind_inputs te params 0 []) []) with
+  match exec_calls te ie cs (mkState (bind_inputs te params 0 []) [] []) with
   | None => None
   | Some s => match read_outputs te outs (st_locals s) with
               | Some vs => Some (vs, st_trace s)
